@@ -1665,6 +1665,21 @@ func substExprHelpers(p *packages.Package, f *ast.File, src []byte, counts map[s
 		base := off(h.expr.Pos())
 		var es []edit
 		ast.Inspect(h.expr, func(x ast.Node) bool {
+			// a qualified identifier (fmt.Sprintf, proto.Clone): the package name must mean the same package at the call;
+			// the member's name is not looked up in any scope
+			if se, isSel := x.(*ast.SelectorExpr); isSel {
+				if pid, isPid := se.X.(*ast.Ident); isPid {
+					if pn, isPkg := info.Uses[pid].(*types.PkgName); isPkg {
+						if scope == nil {
+							okCall = false
+						} else if _, found := scope.LookupParent(pid.Name, ce.Pos()); found != types.Object(pn) {
+							okCall = false
+						}
+						return false
+					}
+				}
+				return true
+			}
 			id, isId := x.(*ast.Ident)
 			if !isId {
 				return true
